@@ -20,10 +20,34 @@ def plan(tier, seed):
     cases = _sim.plan_profiles(tier, seed, WEIGHTS, 8000, 80000)
     for c in cases:
         c["overrides"] = {"script_params": SCRIPT}
+    # live-exchange double: response timings against order-stream updates (BetfairOrder) ...
+    n = 1500 if tier == "quick" else 40000
+    cases += [{"mode": "live_walk", "seed": seed, "idx": i, "cfg": {"n": 1 + i % 3, "async": i % 4 == 3}, "len": 9 + i % 6} for i in range(n)]
+    # ... and every fault plan of the C12 enumeration (failure / timeout / lost-then-retried replies)
+    from . import c12
+
+    cases += [dict(c, mode="live_fault") for c in c12.plan(tier, seed) if c["mode"] == "live"]
     return cases
 
 
 def run(desc):
+    if desc.get("mode") == "live_walk":
+        from . import c11
+
+        r = c11.walk(desc)
+        out = O.Out(PROPERTY)
+        O.c03_lifecycle(r.tr, out, {}, exec_class="Betfair")
+        out.c("live_walks")
+        return out.result()
+    if desc.get("mode") == "live_fault":
+        from . import c12
+
+        out12 = O.Out("C12")
+        tr = c12.run_live(dict(desc, mode="live"), out12)
+        out = O.Out(PROPERTY)
+        O.c03_lifecycle(tr, out, {}, exec_class="Betfair")
+        out.c("live_fault_plans")
+        return out.result()
     case, snaps = _sim.build(desc)
     tr = simrun.run_case(case)
     out = O.Out(PROPERTY)
